@@ -135,6 +135,29 @@ CLAIMS = {
              'Two genuine findings are recorded in known_findings.json (K1 memory_rooms, K2 dense dynamic_obstacles) with class predicates; any other '
              'unwinnable state fails the check.',
         design='8/C14', note=TB + ' "The environment\'s own dynamics" of a reset function = the dynamics the shipped configurations pair it with (table computed at run time).'),
+    'C15': dict(
+        level='proof',
+        technique='Coq proof (bounds of the three per-object encodings over arbitrary type/colour sets by lia over the generated num_states table; arrays lifted cell by cell; agent coordinates as exact fractions) + differential check of convert/space against the model + gym.spaces membership along shipped trajectories',
+        text='Coq theorems (Props/C15.v): for every space (any duplicate-free sets of type indices and colour values), every member object, and each of '
+             'default / no-overlap / compact: the encoding has three entries within [0, upper bound of the per-object space]; the grid array has the grid\'s '
+             'shape with every entry within bounds; the agent-marker array has the grid\'s shape with entries in {0,1}; for state shapes >= 2x2 the agent '
+             'array never raises, its two normalised coordinates are fractions in [-1,1] and the heading is one-hot (a 1-row or 1-column state shape raises '
+             'ZeroDivisionError); whole states and observations key by key; state spaces with non-representable types are refused.  Tie: T1 (type indices, '
+             'num_states, representable regenerated from the registry) + T2: convert and the space upper bounds of the REAL representations vs the model for '
+             'all single types, all pairs and random subsets x colour subsets x shapes x members; oracle Space.contains key by key (shape, dtype, bounds); '
+             'gym layer: gym.spaces.Dict membership of observation and state at every step of trajectories of all 21 shipped environments x 3 representations.',
+        design='8/C15', note=TB + ' Floats: the model gives the agent coordinates as exact fractions; that the correctly rounded float quotient stays in [-1,1] is assumed (monotone rounding) and checked on every case by the oracle. dtype is observed, not modelled.'),
+    'C16': dict(
+        level='proof',
+        technique='Coq proof (injectivity of the three encodings from index_of injectivity over duplicate-free lists; lifted to grids, states and observations through cellwise characterisations; == iff equal hash keys; compact density) + exhaustive per-object and one-feature-pair differential check',
+        text='Coq theorems (Props/C16.v): two member states have equal representations iff they are == (both directions, all three representations); the same '
+             'for observations (grid, agent cell, held item; with FORWARD heading this is ==); == iff equal hash keys; per-object injectivity up to == and '
+             'compatibility with ==; entry (i,j) is enc_obj of the object in cell (i,j) -- one function of the object alone; the agent marker is 1 exactly at '
+             'the agent cell; default = (type, status, colour) triple; no-overlap = three successive disjoint ranges; compact = three disjoint blocks whose union '
+             'is exactly 0..N-1 (every index is the code of a type, (type,status) or colour of the space).  Tie: T2 on EVERY object of each generated space (in '
+             'the hand and in two cells) and on members; oracles on the code: pairs differing in exactly one feature (type/status/colour of a cell, pose, '
+             'heading, held item, box content) -- representation equal iff ==, == implies equal hash() --, marker, positional entries, channel disjointness, density.',
+        design='8/C16', note=TB + ' Observations of a space are those facing FORWARD (the only heading an observation function produces); the observation encodings have no heading channel.'),
     'C18': dict(
         level='proof',
         technique='Coq proof over unbounded Z (group laws, linear isometric action, transform group, area image, grid rotation) + regenerated tables + differential check',
